@@ -132,7 +132,7 @@ func (h *hashCtx) hashable(v ssa.Value, depth int, why *string) bool {
 					for _, r2 := range referrers(rr) {
 						if st, ok := r2.(*ssa.Store); ok && st.Addr == ssa.Value(rr) {
 							n++
-							if !h.hashable(st.Val, depth+1, why) {
+							if !h.hashable(st.Val, depth+1, why) && !typeSwitchedHashable(st.Val, st.Block()) {
 								return false
 							}
 						}
@@ -352,4 +352,48 @@ func reachingStore(load *ssa.UnOp, a *ssa.Alloc) ssa.Value {
 		}
 	}
 	return nil
+}
+
+// typeSwitchedHashable: the interface value v is used in block b only on ways that passed a successful type test of v
+// (`case respInt, respDouble, respBool: out.data = data`) for a concrete type that can always be hashed.
+func typeSwitchedHashable(v ssa.Value, b *ssa.BasicBlock) bool {
+	if _, isIface := v.Type().Underlying().(*types.Interface); !isIface {
+		return false
+	}
+	okTest := func(d *ssa.BasicBlock) bool {
+		ifi, ok := d.Instrs[len(d.Instrs)-1].(*ssa.If)
+		if !ok {
+			return false
+		}
+		ex, ok := ifi.Cond.(*ssa.Extract)
+		if !ok || ex.Index != 1 {
+			return false
+		}
+		ta, ok := ex.Tuple.(*ssa.TypeAssert)
+		if !ok || !ta.CommaOk || !sameValue(ta.X, v) {
+			return false
+		}
+		return staticallyHashable(ta.AssertedType, 0)
+	}
+	seen := map[*ssa.BasicBlock]bool{}
+	var back func(x *ssa.BasicBlock) bool
+	back = func(x *ssa.BasicBlock) bool {
+		if seen[x] {
+			return true
+		}
+		seen[x] = true
+		if len(x.Preds) == 0 {
+			return false
+		}
+		for _, d := range x.Preds {
+			if okTest(d) && d.Succs[0] == x && d.Succs[1] != x {
+				continue
+			}
+			if !back(d) {
+				return false
+			}
+		}
+		return true
+	}
+	return back(b)
 }
